@@ -9,6 +9,7 @@ CONSTANTS
   EngSensors <- AllS
   Policy <- PolGreedy
   NSteps = 6
+  SpanSteps = 6
   Dt = 2
   OutDt = 3
   Events <- NoEvents
